@@ -76,6 +76,7 @@ type Config struct {
 	TickNs       int64 `json:"tickNs"`                 // simulated ns per VM instruction (0 = clock never moves by itself)
 	MaxDecisions int   `json:"maxDecisions,omitempty"` // cap; 0 = default
 	Race         bool  `json:"race,omitempty"`         // wants the race build (pool drain at switches, report reader)
+	NoGC         bool  `json:"noGC,omitempty"`         // no garbage collection while the episode runs: what sync.Pools hold between the runs of one episode must not depend on collector timing
 	PoolShare    bool  `json:"poolShare,omitempty"`    // pooled objects may travel between simulated threads: no drains, one P, no GC, yields inside host String methods
 }
 
